@@ -10,18 +10,20 @@ EXTENDS YangSchemaRand, Json, SequencesExt
 CONSTANTS Fams, Chunks, NRand, RandMode
 VARIABLES fam, chunk, done
 FeatNames(E) == SetToSeq({id[1] \o ":" \o id[2] : id \in E})
+\* where the enabled features come from: the source of the case, else the plain one (exactly c.e, by name)
+SrcOf(c) == IF "src" \in DOMAIN c THEN c.src ELSE SrcNames(TRUE, SetToSeq(c.e))
 Vec(c, f) ==
-  LET a == Analyse(c.m, c.e)
+  LET a == AnalyseSrc(c.m, SrcOf(c))
       alt == IF c.alt = "inline" /\ a.inlineOk THEN a.inline ELSE IF c.alt = "edit" /\ a.editOk THEN a.edit ELSE <<>>
   IN [fam |-> f, mods |-> c.m, feats |-> FeatNames(c.e), verdict |-> a.verdict, errs |-> a.errs, why |-> a.why,
       schema |-> IF a.verdict \in {"ok", "open"} THEN a.schema ELSE Blank("tree", ""),
       \* verdict "open": the compile verdict and the attributes listed here are not judged, the rest of the schema is
       open |-> SetToSeq({[path |-> o.path, attr |-> o.attr] : o \in a.opens}),
-      altkind |-> IF alt = <<>> THEN "none" ELSE c.alt, alt |-> alt, cls |-> InputClasses(c.m),
+      altkind |-> IF alt = <<>> THEN "none" ELSE c.alt, alt |-> alt, cls |-> InputClasses(c.m), fsrc |-> SrcOf(c),
       flt |-> [i \in 1..Len(c.fl) |-> [f |-> c.fl[i], schema |-> IF a.verdict \in {"ok", "open"} THEN Prune(a.schema, c.fl[i]) ELSE Blank("tree", "")]]]
 \* a sampled module set: no expectation, only the input
 RVec(c) == [fam |-> "R", mods |-> c.m, feats |-> FeatNames(c.e), verdict |-> "record", errs |-> {}, why |-> {},
-            schema |-> Blank("tree", ""), open |-> <<>>, altkind |-> "none", alt |-> <<>>, cls |-> InputClasses(c.m),
+            schema |-> Blank("tree", ""), open |-> <<>>, altkind |-> "none", alt |-> <<>>, cls |-> InputClasses(c.m), fsrc |-> SrcOf(c),
             flt |-> [i \in 1..Len(c.fl) |-> [f |-> c.fl[i], schema |-> Blank("tree", "")]]]
 GInit == fam \in Fams /\ chunk \in 1..Chunks /\ done = FALSE
 Share(S) == LET q == SetToSeq(S) IN {q[i] : i \in {j \in 1..Len(q) : j % Chunks = chunk - 1}}
